@@ -12,6 +12,7 @@ PKG = "c08fx"
 SOURCE = '''
 import functools
 import inspect
+import typing
 
 
 def deco(f):
@@ -266,6 +267,27 @@ class Sub(K):
     pass
 
 
+# user TypedDict CLASSES made with typing.TypedDict: as class objects they are ordinary named classes (encoded by name),
+# not MonkeyType's anonymous TypedDicts
+class Movie(typing.TypedDict):
+    title: str
+    year: int
+
+
+class PartialMovie(typing.TypedDict, total=False):
+    title: str
+    rating: float
+
+
+class Sequel(Movie, total=False):
+    number: int
+
+
+FunctionalTD = typing.TypedDict("FunctionalTD", {"a": int})
+
+TYPING_TDS = [Movie, PartialMovie, Sequel, FunctionalTD]
+
+
 # classes whose qualnames also exist in c08fx.other (another module of the package): different classes
 class User:
     pass
@@ -419,6 +441,31 @@ nowhere.__qualname__ = "K.no_such_attr"
 alias = mfunc
 
 
+# names that were re-bound after the function was traced: the row still says `aliased` / `relocal` / `K.swapped`
+def aliased(x):
+    return x
+
+
+aliased_orig = aliased
+aliased = mfunc                        # now another module-level function
+
+
+def relocal(x):
+    return x
+
+
+relocal_orig = relocal
+relocal = make_local()                 # now a local function
+
+
+def _swapped(self, x):
+    return x
+
+
+_swapped.__qualname__ = "K.swapped"
+K.swapped = K.__dict__["meth"]         # the name K.swapped leads to K.meth
+
+
 SENTINELS = [NoneType, NotImplementedType, mappingproxy, Outer.NoneType, Outer.mappingproxy]
 
 FUNCS = {
@@ -462,6 +509,9 @@ FUNCS = {
     "K.wo.fset": (K.__dict__["wo"].fset, False, "lambda"),
     "K.wprop": (ORIG["K.wprop"], False, "property over a wrapper"),
     "shadowed": (ORIG["shadowed"], False, "rebound by a non-wrapping decorator"),
+    "aliased": (aliased_orig, False, "name re-bound to another function"),
+    "relocal": (relocal_orig, False, "name re-bound to another function"),
+    "K.swapped": (_swapped, False, "name re-bound to another function"),
     "lam": (lam, False, "lambda"),
     "LOCAL": (LOCAL, False, "local function"),
     "renamed": (renamed, False, "name leads to a non-function"),
@@ -471,6 +521,7 @@ FUNCS = {
 
 CLASSES = {
     "K": (K, True), "K.Inner": (K.Inner, True), "K.Inner.Deep": (K.Inner.Deep, True), "Sub": (Sub, True),
+    "Movie": (Movie, True), "PartialMovie": (PartialMovie, True), "Sequel": (Sequel, True), "FunctionalTD": (FunctionalTD, True),
     "Plain": (Plain, True), "User": (User, True), "Account": (Account, True), "Ledger": (Ledger, True),
     "Ledger.Entry": (Ledger.Entry, True),
     "ArgsTypes": (ArgsTypes, True), "ArgsEmpty": (ArgsEmpty, True), "ArgsNames": (ArgsNames, True), "ArgsText": (ArgsText, True),
